@@ -18,7 +18,7 @@ out += ['', '| mutant | place | change | verdict | reported by / remark |', '|--
 for sv in s['survivors']:
     v = r.get(sv['id'])
     if not v:
-        out.append('| %s | %s:%d | %s | not run | |' % (sv['id'], sv['file'].split('/')[-1], sv['line'], sv['what'].replace('|', '\\|')[:70]))
+        out.append('| %s | %s:%d | %s | not run | %s |' % (sv['id'], sv['file'].split('/')[-1], sv['line'], sv['what'].replace('|', '\\|')[:70], notes.get(sv['id'], '')))
         continue
     by = '; '.join('%s: %s' % (b['property'], ', '.join(u.replace('unit ', '').replace(' VIOLATION', '').split()[0] for u in b.get('units', [])) or 'inconclusive') for b in v.get('by', []))
     rem = notes.get(sv['id'], '')
